@@ -2,7 +2,7 @@
 """Regenerates /verif/MANIFEST.json from the table below (kept valid at all times)."""
 import json, sys, os
 
-HOOK_COMMITS = ["0aadbb0"]
+HOOK_COMMITS = ["0aadbb0", "f520fb1"]
 
 # id -> (engine, technique, level text, level note, design ref)
 CHECKS = {
@@ -10,6 +10,66 @@ CHECKS = {
          "Every digraph on 0..n (n<=4 quick, n<=5 thorough) in all five representations, every AdjacencyMap vertex set over small id pools (non-contiguous), and structured families at orders 8..65, with every query of the property compared with its set definition; nothing sampled. Decides the property for all inputs inside those bounds.",
          "Trusted: the reference definitions in engine/gv/src/refm.rs, rustc, the shadow manifest building /repo/src. Orders > 5 only through families; weights fixed to 1 here.",
          "DESIGN.md 5 C02"),
+ "C03": ("E-ENUM", "bounded-exhaustive enumeration of all weighted digraphs (order<=4, small weight alphabets) x all source sets, real Dijkstra vs reference relaxation",
+         "Every AdjacencyListWeighted<usize> digraph of order <=3 over weights {0,1,2,5} and order 4 over {1,3} (3^12) / {0,1,3}, every subset of sources in both orders; item streams and distances() judged against reference distances. Decides C03 inside those bounds; ties accepted in any order.",
+         "Trusted: array-based reference (|V|-1 rounds of relaxation in i128). Weights outside the alphabets and orders > 5 not explored.",
+         "DESIGN.md 5 C03"),
+ "C04": ("E-ENUM", "bounded-exhaustive enumeration of all digraphs of order <= 4/5 x all source subsets x 5 representations, real BFS vs frontier-iteration levels",
+         "Every digraph on 0..n (n<=4; 5 thorough) x every source subset (empty included, both orders) x five representations; Bfs/BfsDist streams and distances() against hop levels from frontier iteration.",
+         "Trusted: reference levels over the arc set. Orders > 5 not explored.",
+         "DESIGN.md 5 C04"),
+ "C05": ("E-ENUM", "bounded-exhaustive enumeration of digraphs x source sets x ALL target predicates (2^n subsets), real BfsPred/DijkstraPred vs reference distances",
+         "BFS: every digraph of order <=4 (5 with few sources) x 5 reps x every source subset x every target predicate; Dijkstra: every weighted digraph of order <=3 over {0,1,2,5}, order 4 over {1,3}. Tree arcs, None-iff-unreachable, path validity and optimality (any optimal path accepted), cycles() soundness.",
+         "Trusted: reference distances. cycles(): soundness only, as the property states.",
+         "DESIGN.md 5 C05"),
+ "C06": ("E-ENUM", "bounded-exhaustive enumeration of digraphs x every ORDERED arrangement of every source subset, real DFS streams fed to a depth-first-preorder validator",
+         "Every digraph on 0..n (n<=4; 5 with <=1-2 sources) x every ordered arrangement of every source subset x five representations; Dfs/DfsDist/DfsPred streams validated by a search-path validator that accepts any valid depth-first preorder, plus reachable-set equality and predecessors() = forest. The one recorded finding (D2) is matched by an exact semantic classifier; every other deviation is a VIOLATION.",
+         "Trusted: the validator (refm.rs DfsValidator). The known-finding classifier predicts the defective output exactly (lazy-stack preorder cut at first stale pop).",
+         "DESIGN.md 5 C06, 6.3"),
+ "C07": ("E-ENUM", "bounded-exhaustive enumeration of all isize-weighted digraphs (order<=4, alphabets with negatives) x every source, real Bellman-Ford-Moore vs reference + simple-cycle enumeration",
+         "Every AdjacencyListWeighted<isize> digraph of order <=3 over {-2,-1,0,1,2}, order 4 over {-1,2} (thorough: {-1,0,2}, {-2,-1,1,3}) x every source: None iff a negative circuit is reachable (either answer accepted when only an unreachable one exists), Some exact, agreement with Dijkstra on non-negative inputs, idempotent second call. All arc-count residues mod 4 counted.",
+         "Trusted: reference distances and exhaustive simple-cycle enumeration.",
+         "DESIGN.md 5 C07"),
+ "C08": ("E-ENUM", "bounded-exhaustive enumeration of the C07 spaces filtered to no negative circuit, real Floyd-Warshall matrix vs per-source reference, BFM and Dijkstra rows",
+         "All pairs of every negative-circuit-free digraph of the C07 spaces: exact entries, zero diagonal, isize::MAX iff unreachable, row s = BellmanFordMoore(s), = Dijkstra(s) on non-negative weights.",
+         "Trusted: reference distances; inputs with a negative circuit are outside the property.",
+         "DESIGN.md 5 C08"),
+ "C09": ("E-ENUM", "bounded-exhaustive enumeration of digraphs (5 reps, order<=4/5) and non-contiguous AdjacencyMap id pools, real Tarjan vs mutual-reachability classes",
+         "Tarjan::components() as a set of sets equals the classes of mutual reachability and is a partition, for every digraph of order <=4 (5) in five representations and every AdjacencyMap over vertex sets of the pools {0,2,3,7,9} and {1,4,6}.",
+         "Trusted: per-vertex reachability sets.",
+         "DESIGN.md 5 C09"),
+ "C10": ("E-ENUM", "bounded-exhaustive enumeration of all AdjacencyMap digraphs of order <= 5, real Johnson75 vs exhaustive simple-path circuit enumeration (multiset equality)",
+         "Every contiguous AdjacencyMap digraph of order <=4 and order 5 (<=12 arcs quick, all 2^20 thorough): circuits() equals the multiset of elementary circuits from exhaustive simple-path extension, each written from its smallest vertex.",
+         "Trusted: the reference circuit enumeration. Order <= 5.",
+         "DESIGN.md 5 C10"),
+ "C11": ("E-ENUM+E-CONF", "bounded-exhaustive enumeration of digraphs and ordered PAIRS/TRIPLES of digraphs x every worker count, real operators vs set definitions",
+         "complement/converse/union/filter_vertices against set definitions: every digraph of order <=4 (5), every ordered pair up to orders (3,3),(4,2) ((4,4) thorough), every triple of orders <=3 (associativity), AdjacencyMap over non-contiguous id pools with every predicate, weighted converse; AdjacencyList/AdjacencyMap threaded variants for every worker count 1..=4..8 through the available_parallelism seam.",
+         "Trusted: set definitions in refm.rs; worker count set through the cfg(graaf_verif) seam (bound to real affinity in C17).",
+         "DESIGN.md 5 C11"),
+ "C12": ("E-ENUM+E-CONF+E-SCHED", "bounded-exhaustive enumeration of digraphs / pairs / near-miss families x every worker count, plus exhaustive preemption-bounded schedules of is_semicomplete",
+         "Eight unary predicates on every digraph of order <=4 (5) x 5 reps, AdjacencyMap over non-contiguous pools, near-miss families for EVERY pair position at orders 5..33 x worker counts 1..16; three binary relations over every ordered pair up to (3,3),(4,2) ((4,4) thorough).",
+         "Trusted: set definitions. shuttle treats the Relaxed flag as SeqCst (monotone-flag argument in DESIGN.md).",
+         "DESIGN.md 5 C12"),
+ "C14": ("E-ENUM+E-CONF", "exhaustive sweep of generator parameters (orders 0..130, (m,n) grid) x 4 representations x worker counts, real generators vs closed-form arc sets",
+         "Seven order-parameterised generators at every order 0..=40, 63..=66, 127..=130 (0..=130 thorough) in four representations vs closed forms and vs each other; AdjacencyList::complete for every n<=34 (70) x every worker count 1..=17 (33) and Err; biclique grid incl. zeros; inadmissible parameters panic.",
+         "Trusted: closed forms in gens.rs. Orders > 130 not explored.",
+         "DESIGN.md 5 C14"),
+ "C15": ("E-ENUM+E-CONF+E-SCHED", "exhaustive sweep of a (order, seed, p, representation, worker count) grid, each call made twice; exhaustive preemption-bounded schedules of the threaded generators",
+         "Validity (tournament / recursive tree / simple digraph), p=0/p=1 extremes, invalid p and order 0 panic, equal arguments => equal results, next_f64 in [0,1) — on every point of the enumerated grid. 'All u64 seeds' is decided only on the enumerated seeds (stated limit).",
+         "Trusted: validity definitions. Seeds enumerated, not all 2^64.",
+         "DESIGN.md 5 C15"),
+ "C16": ("E-ENUM", "bounded-exhaustive enumeration of digraphs x all 20 conversions + round trips, and of ALL row vectors / arc sequences (valid and invalid) up to a length",
+         "Every digraph of order <=4 (5) through 12+8 conversions, round trips and a 4-chain; every vector of <=3 rows over subsets of 0..4 and every sequence of <=3 arcs over {0..4}^2 incl. self-loops, out-of-range heads, duplicates, empty input: same (V,A,w) or the documented panic.",
+         "Trusted: Abs equality. EdgeList::from(empty) documented as no-panic.",
+         "DESIGN.md 5 C16"),
+ "C18": ("E-ENUM", "bounded-exhaustive enumeration of all matrices of order <= 3/4 over small alphabets (usize, isize, finite infinity)",
+         "Every DistanceMatrix of order <=3 over {0,1,2,inf} / {-1,0,2,inf} / {0,3,9}, order 4 over 3 letters (thorough), plus pairwise-distinct matrices for addressing: eccentricities, diameter, center, periphery, is_connected, Index/IndexMut, new().",
+         "Trusted: row-maximum definitions.",
+         "DESIGN.md 5 C18"),
+ "C19": ("E-ENUM", "bounded-exhaustive enumeration of all predecessor vectors of length <= 6/7 x start x target/predicate, with a per-case non-termination watchdog",
+         "Every predecessor vector of length <=6 (7) over {None, 0..n}, every start, every target vertex, every subset predicate (n<=5) and two predicates over the predecessor argument, against a link-following reference; a stalled case is reported as non-termination.",
+         "Trusted: reference link-following with a visited set; watchdog threshold 60 s.",
+         "DESIGN.md 5 C19"),
 }
 
 PENDING = {}
